@@ -147,6 +147,34 @@ CHECKS.update({
    technique="bounded symbolic execution of the real Python at reduced width (PYSYM) and of the real C conversions (LLSYM) + z3; concrete interpretation of the modexp C under the LLSYM memory model"),
 })
 
+# ---- as-built refinements of the texts above (kept here so that the table stays the single source)
+def _upd(pid, text_add=None, note=None, text=None):
+    c = CHECKS[pid]
+    if text is not None:
+        c['text'] = text
+    if text_add:
+        c['text'] = c['text'] + "  " + text_add
+    if note is not None:
+        c['note'] = note
+
+
+_upd('C02', text_add="Multi-block ChaCha20 streams and the 64-bit counter carry are decided through the C11 chacha_seq grid (sequence vs direct seek on the real C).")
+_upd('C03', text_add="Also: Poly1305 limb arithmetic except the 130x128-bit product (LLSYM), and the SP 800-185 layer in Python -- cSHAKE128/256, KMAC128/256, TupleHash128/256 incl. left_encode/right_encode for every value of 1..3 (5) bytes, bytepad at the rate boundary, every mac/digest length around 128/256 bits -- against the standard over the uninterpreted sponge; verify() accepts the standard tag.",
+     note="Compression functions and permutations are uninterpreted (KAT-tested primitives assumed); MD2/MD4 functional behaviour (compression inlined; their frame condition is under C19), BLAKE2, HMAC/CMAC glue (exercised under C09/C12/C19, not against a reference here), KangarooTwelve are not part of this check; messages <= 2 blocks+1.  Replay compares the gcc-built C with a pure-Python Keccak-p / hashlib.")
+_upd('C08', text="Partial: (1) symbolic execution of the real __eq__/__ne__ of RsaKey, DsaKey, ElGamalKey and EccKey on objects built from independent symbolic components, incl. ECC keys on different curves with equal scalars: z3 decides 'equal <=> same type, same privacy and same components'.  (2) export -> import round trips in the binary formats: ECC DER (SPKI, RFC 5915, PKCS#8 in clear) and SEC1 uncompressed for every private scalar with 0..1 (2) leading zero bytes and every seed, X25519/X448 SPKI; import(export(k)) == k with privacy, curve, scalar/seed preserved.  (3) PBES2: decrypt(encrypt(data)) == data for every PBKDF2-PRF x cipher combination and every scrypt scheme with data, passphrase, salt and IV symbolic (PRF OID table, AEAD tag placement, padding travel through the DER AlgorithmIdentifier).",
+     note="RSA / DSA export-import (their importers run the full consistency checks: symbolic only at toy width, see C05), the PEM / OpenSSH text layer (base64 of symbolic bytes is not modelled), SEC1 compressed and EdDSA public keys (decompression needs a modular square root), PBES1, wrong-passphrase refusal (not derivable over uninterpreted ciphers) and an external parser as oracle are outside.  EC points over the abstract group; an exception from == counts as 'not equal'.")
+_upd('C09', text_add="Segmentations with an EMPTY middle piece while a partial block is cached are included for every AEAD stream.")
+_upd('C10', text_add="Also: after a WRONG tag (verify / decrypt_and_verify raise ValueError) only verify() remains possible -- every follow-up call; OCB with its explicit final no-argument encrypt()/decrypt() (9 methods); CCM with assoc_len/msg_len declared, pieces counted against the declaration (too much / too little data -> ValueError).  An exception of any other type (e.g. an escaping AssertionError) is a violation.",
+     note="Depth 3 (EAX 2) plus selected depth-4/5 paths in quick; depth 4 (GCM 5) exhaustively in thorough; argument lengths cycle through 1, 16, 17, 0.  SIV and hash/XOF/MAC objects are not part of this check (their streaming behaviour is C09); deeper histories are outside (no abstraction-soundness argument); behaviour after a ValueError for too much / too little declared CCM data is not followed.  Primitives uninterpreted as in C01.")
+_upd('C11', text_add="ChaCha20: sequences of seek()/encrypt() on the real C of src/chacha20.c -- every call returns the key stream for its position (reference: the real code's own output after a direct seek on a fresh object; that single block == RFC 8439 is decided in C02) or fails; it must fail beyond the counter range and, once failed, keep failing until a successful seek (no silent restart from block 0); ChaCha20.seek() in Python for every position up to 136 bits incl. negative ones; CCM: every declared msg_len, with and without assoc_len, against the q = 15 - len(nonce) limit; GCM: one encrypt() step from an arbitrary mid-life byte count against 2^36 - 32 bytes.",
+     note="cipher->encrypt is the uninterpreted E; <= 5 calls of <= 9 blocks+1 per object; mid-life states assume the representation invariant.  ChaCha20 block indexes: fully symbolic below a carry of the low counter word, solver-enumerated in windows of 4 next to the carry and the end of the counter range; the last block index is refused by the implementation (conservative, allowed by the oracle).  Python-level ChaCha20/CCM/GCM checks run over the C contract models (ctypes c_ulong truncation modelled).  GCM decrypt() has no limit of its own (observed; not anchored).  HPKE nonce distinctness is decided under C15.")
+_upd('C13', text_add="Grammar-based ECC key files (SPKI, RFC 5915, PKCS#8, EdDSA/XDH SPKI and PKCS#8): well-formed DER whose EC point / private scalar / raw key has every length around the expected one and symbolic content: a key or ValueError, never another exception.",
+     note="Bounds: decoders on all inputs of length <= 5 (quick) / 7 (thorough); windows over structural octets of 11 valid RSA/DSA/PBES templates; integers |v| < 2^40; ECC files for P-256/P-521 (thorough P-384) and the four Edwards/Montgomery curves.  PEM/OpenSSH text, compressed-point and EdDSA point decompression (modular square root of a symbolic value), OID arcs and RFC1751 are outside.  Default RNG is a fixed concrete tape and block-cipher decryption is opaque (zero blocks) in the template harness.")
+_upd('C17', text_add="Python wrappers (strxor, strxor_c, ECB/CBC/CFB/OFB/CTR/ChaCha20 encrypt/decrypt with output=): every (input, second input, output) length combination -- a mismatch is refused with ValueError/TypeError before the native call, and the native contract model reports any length that would overrun a passed buffer.  ec_ws.c + mont.c + generator tables: new_context / new_point / scalar (generator fast path and generic path) / get_xy / free on CONCRETE operands with scalars of 0..80 bytes under the same memory model.",
+     note="About a third of the 42 extension modules; cipher cores (AES/DES/Blowfish/CAST/ARC2/ARC4), GHASH, BLAKE2 (frame condition only, C19), Salsa20/scrypt, Ed25519/Ed448/X25519/X448 and modexp (C14: concrete operands), allocator-failure paths and lengths above the grid are outside.  EC runs use concrete operands (wide symbolic products are out of reach).  malloc is assumed to succeed.  Counterexamples are replayed on the gcc-built C with guard bytes and an allocation tracker, then under AddressSanitizer; a crash of the replay counts as confirmation.")
+_upd('C19', text="Partial (sequential independence, copy, shared-state freedom): (1) Python copy() of CMAC (AES, 3DES), HMAC, SHA-1/256/512, MD5, SHA3-256, RIPEMD-160: update / copy / update of both objects in either order, second-generation copies, digests in between, lengths around the block size, all bytes symbolic: each object's digest is the digest of its own message only.  (2) frame conditions of every encoded C entry point -- for all byte contents only the object's own state and the designated outputs are written, never inputs/keys/IVs or module globals (no writable static: also MD2, MD4, BLAKE2b/s with two live objects, copy, destroy) -- and for the EC point operations (add, double, neg, cmp, get_xy, scalar) that the shared EcContext and the second operand are never written and everything allocated is released.  Disjoint write sets give non-interference of distinct objects, also under concurrent use; this is an argument from the frame conditions, not an exploration of thread schedules.",
+     note="Thread interleavings (2..16 threads), the curve-registry lock and first-use races, GIL release behaviour are outside: no engine here explores schedules (a seeded lock-refactor race is NOT caught, see DESIGN.md s9.6).  EC frame checks use concrete coordinates (data-independent control flow), MD2 concrete message bytes.  Writable statics are confirmed in replay on the compiled IR; heap writes through a link-time allocation tracker.")
+
 ENGINES = [
     dict(name="PYSYM", path="vlib/pysym", kind_free_text="bounded symbolic execution of the real Python source (AST-rewritten import, symbolic bytes/int proxies, fork by re-execution under a decision prefix) decided by z3"),
     dict(name="LLSYM", path="vlib/llsym", kind_free_text="symbolic interpreter of clang-14 LLVM IR (-O0 + mem2reg) of /repo/src/*.c into z3 terms, bounds-checked memory model, local path exploration with ite-merge at function returns; replay on the gcc-built C through ctypes"),
